@@ -304,8 +304,6 @@ func (self Node) AsByte(ctx *Context) (uint8, bool) {
 	typ := self.Type()
 	if typ == KUint && self.U64() <= math.MaxUint8 {
 		return uint8(self.U64()), true
-	} else if typ == KSint && self.I64() == 0 {
-		return 0, true
 	} else {
 		return 0, false
 	}
